@@ -379,6 +379,126 @@ fn parse_c03_origin(o: &str) -> Option<ModuleSet> {
     }
 }
 
+/// Notation grammar G does not spell: members that reach a type through COMPONENTS OF or through the instantiation of a
+/// parameterized type, within one module and across modules with other tagging defaults. Exhaustive over defining default x
+/// using default x {same module, other module} x {COMPONENTS OF, instantiation} x {SEQUENCE, SET} x {members tagged, untagged}.
+/// Oracle: a keyword-less tag is explicit iff the module it is *written in* says EXPLICIT TAGS (X.680 31.2.7; the linker's copy
+/// does not change that); `automatic_tags` iff the including type is in an AUTOMATIC TAGS module and none of its own textual
+/// components is tagged (X.680 25.8: decided before the COMPONENTS OF transformation).
+fn c03_copied_components(rep: &mut Report) {
+    use crate::comp;
+    // a tagged type assignment that only *becomes* a CHOICE while linking (instance of a parameterized CHOICE, selection of an
+    // inline CHOICE alternative): a tagged CHOICE is always explicit (X.680 31.2.7 c)
+    for da in ["EXPLICIT TAGS", "IMPLICIT TAGS", "AUTOMATIC TAGS"] {
+        for kwd in ["", "EXPLICIT "] {
+            let src = format!(
+                "Mc DEFINITIONS {da} ::= BEGIN\nEither {{ Tp }} ::= CHOICE {{ some Tp, none NULL }}\nMaybeBool ::= [3] {kwd}Either {{ BOOLEAN }}\nWrapper ::= CHOICE {{ inner CHOICE {{ pa INTEGER, pb BOOLEAN }}, other NULL }}\nSelected ::= [5] {kwd}inner < Wrapper\nDirect ::= [4] {kwd}CHOICE {{ da INTEGER, db NULL }}\nEND\n"
+            );
+            let run = comp::rasn(&[src.clone()], &comp::Cfg::default_cfg());
+            rep.evaluations += 1;
+            let comp::Outcome::Ok { generated, warnings } = &run.out else {
+                rep.count("late_choice_cases[not Ok]", 1);
+                continue;
+            };
+            let Ok(mods) = crate::proj::project(generated) else { continue };
+            for (name, how) in [("MaybeBool", "parameterized-choice-instance"), ("Selected", "selection-of-inline-choice"), ("Direct", "choice-written-directly")] {
+                if warnings.iter().any(|w| w.contains(name)) {
+                    continue;
+                }
+                let Some(it) = mods.iter().find_map(|m| m.find(name)) else { continue };
+                if !matches!(it.kind, crate::proj::Kind::Enum { .. }) {
+                    continue;
+                }
+                rep.count("tag_modes_compared", 1);
+                rep.count("late_choice_tags_judged", 1);
+                rep.nontrivial.insert(hash_str(&format!("{src}|{name}")));
+                match it.attrs.tag() {
+                    Some(t) if t.explicit => {}
+                    got => rep.violations.push(Violation {
+                        sig: format!("c03|implicit-expected-explicit|tagged-choice|{how}|default={}", da.split(' ').next().unwrap()),
+                        what: format!("{name} is a tagged CHOICE ({how}) and must be tagged explicitly, emitted {got:?}"),
+                        replay: serde_json::json!({"origin": format!("late-choice({da},{kwd})"), "sources": [src.clone()]}),
+                    }),
+                }
+            }
+        }
+    }
+    let defaults = [("EXPLICIT TAGS", "Explicit"), ("IMPLICIT TAGS", "Implicit"), ("AUTOMATIC TAGS", "Automatic")];
+    for (da, na) in defaults {
+        for (db, nb) in defaults {
+            for same_module in [true, false] {
+                if same_module && da != db {
+                    continue;
+                }
+                for form in ["components-of", "instantiation"] {
+                    for kw in ["SEQUENCE", "SET"] {
+                        for tagged in [true, false] {
+                            // untagged members outside AUTOMATIC TAGS would make the SET illegal; only SEQUENCE then
+                            if !tagged && kw == "SET" && (na != "Automatic" || nb != "Automatic") {
+                                continue;
+                            }
+                            let (t0, t1, t7) = if tagged { ("[0] ", "[1] ", "[7] ") } else { ("", "", "") };
+                            let defs_a = format!("Base ::= {kw} {{ xa {t0}INTEGER, ya {t1}BOOLEAN OPTIONAL }}\nPar {{ Tp }} ::= {kw} {{ xa {t0}Tp, ya {t1}BOOLEAN OPTIONAL }}\n");
+                            let def_b = match form {
+                                "components-of" => format!("Copy ::= {kw} {{ zb {t7}NULL, COMPONENTS OF Base }}\n"),
+                                _ => "Copy ::= Par { INTEGER }\n".to_string(),
+                            };
+                            let srcs = if same_module {
+                                vec![format!("Ma DEFINITIONS {da} ::= BEGIN\n{defs_a}{def_b}END\n")]
+                            } else {
+                                vec![format!("Ma DEFINITIONS {da} ::= BEGIN\nEXPORTS ALL;\n{defs_a}END\n"), format!("Mb DEFINITIONS {db} ::= BEGIN\nIMPORTS Base, Par{{}} FROM Ma;\n{def_b}END\n")]
+                            };
+                            let run = comp::rasn(&srcs, &comp::Cfg::default_cfg());
+                            rep.evaluations += 1;
+                            let comp::Outcome::Ok { generated, warnings } = &run.out else {
+                                rep.count("copied_component_cases[not Ok]", 1);
+                                continue;
+                            };
+                            if !warnings.is_empty() {
+                                rep.count("copied_component_cases[warnings]", 1);
+                                continue;
+                            }
+                            let Ok(mods) = crate::proj::project(generated) else { continue };
+                            let Some(copy) = mods.iter().find_map(|m| m.find("Copy")) else { continue };
+                            let crate::proj::Kind::Struct { fields, .. } = &copy.kind else { continue };
+                            rep.count("copied_component_cases_judged", 1);
+                            rep.nontrivial.insert(hash_str(&srcs.join("|")));
+                            let origin = format!("copied-components(defining={na},using={nb},same_module={same_module},{form},{kw},tagged={tagged})");
+                            let using = if same_module { na } else { nb };
+                            if tagged {
+                                for f in fields.iter().filter(|f| f.name == "xa" || f.name == "ya") {
+                                    rep.count("tag_modes_compared", 1);
+                                    let want_explicit = na == "Explicit";
+                                    match f.attrs.tag() {
+                                        Some(t) if t.explicit == want_explicit => {}
+                                        got => rep.violations.push(Violation {
+                                            sig: format!("c03|copied-member-tag-mode|{form}|defining={na},using={using}"),
+                                            what: format!("member {} written `[n] T` in a module with {da} and brought into Copy by {form}: expected explicit={want_explicit}, emitted {got:?} [{origin}]", f.name),
+                                            replay: serde_json::json!({"origin": origin, "sources": srcs}),
+                                        }),
+                                    }
+                                }
+                            }
+                            // automatic tagging of the including type itself
+                            if form == "components-of" {
+                                rep.count("automatic_tags_compared", 1);
+                                let want_auto = using == "Automatic" && !tagged;
+                                if copy.attrs.has("automatic_tags") != want_auto {
+                                    rep.violations.push(Violation {
+                                        sig: format!("c03|automatic-tags-{}|components-of|using={using},components-tagged={tagged}", if want_auto { "missing" } else { "unexpected" }),
+                                        what: format!("Copy ::= {kw} {{ zb .., COMPONENTS OF Base }} in a module with {}: automatic_tags={} [{origin}]", if same_module { da } else { db }, copy.attrs.has("automatic_tags")),
+                                        replay: serde_json::json!({"origin": origin, "sources": srcs}),
+                                    });
+                                }
+                            }
+                        }
+                    }
+                }
+            }
+        }
+    }
+}
+
 pub fn run_c03(ctx: &Ctx) -> Report {
     let mut rep = Report::new(
         "fault_enumeration",
@@ -403,6 +523,7 @@ pub fn run_c03(ctx: &Ctx) -> Report {
     let rep = acc.into_inner();
     let n = ctx.pick(3_000u64, 60_000);
     let mut rep = cmodel::run_random(ctx, "C03", 300, n, &g_opts_types(), rep);
+    c03_copied_components(&mut rep);
     // DER level (O6): the generated bindings decode model-made DER bytes of sample values and encode them back
     if std::env::var("VERIF_NO_DER").is_err() {
         crate::c03der::run(ctx, &mut rep);
